@@ -10,8 +10,8 @@ characteristic reset.  Helper lemmas: `Lemmas/TxnPool.lean`.
 namespace SaVerif.Props.C24
 open SaVerif.Txn
 
-theorem init_inv (rs : ResetStyle) (hrs : rs ≠ .none) (ls : Listener) (eo : List Bool) :
-    Inv (Conn.connect (DB.init rs ls eo)) :=
+theorem init_inv (rs : ResetStyle) (hrs : rs ≠ .none) (ls : Listener) (eo : List Bool) (rc : Option Nat) :
+    Inv (Conn.connect (DB.init rs ls eo rc)) :=
   connect_inv (fun r hr => by simp [DB.init] at hr) hrs (heldIso_clean rfl rfl)
 
 /-- **checkin_clean**: after EVERY operation sequence — any interleaving of begin,
@@ -23,9 +23,9 @@ theorem init_inv (rs : ResetStyle) (hrs : rs ≠ .none) (ls : Listener) (eo : Li
     new checkouts and extra pooled connections — every DBAPI connection idle in the pool has
     no transaction in progress, no savepoints, the default isolation level and no pending
     reset callbacks, provided reset_on_return is not disabled. -/
-theorem checkin_clean (rs : ResetStyle) (hrs : rs ≠ .none) (ls : Listener) (eo : List Bool)
-    (ops : List Op) : PoolClean ((Conn.connect (DB.init rs ls eo)).run ops).db :=
-  (run_inv ops _ (init_inv rs hrs ls eo)).2.1
+theorem checkin_clean (rs : ResetStyle) (hrs : rs ≠ .none) (ls : Listener) (eo : List Bool) (rc : Option Nat)
+    (ops : List Op) : PoolClean ((Conn.connect (DB.init rs ls eo rc)).run ops).db :=
+  (run_inv ops _ (init_inv rs hrs ls eo rc)).2.1
 
 /-- the same from any state satisfying the invariant (e.g. a pool that already holds
     connections) -/
@@ -37,26 +37,53 @@ theorem checkin_clean_from (c : Conn) (hi : Inv c) (ops : List Op) : PoolClean (
     dropped) a DBAPI connection that sees exactly the committed rows, has no savepoints, is
     not in AUTOCOMMIT / READ UNCOMMITTED and carries no reset callback of an earlier user;
     the new Connection is not in a transaction. -/
-theorem handed_out_clean (rs : ResetStyle) (hrs : rs ≠ .none) (ls : Listener) (eo : List Bool)
+theorem handed_out_clean (rs : ResetStyle) (hrs : rs ≠ .none) (ls : Listener) (eo : List Bool) (rc : Option Nat)
     (ops : List Op) :
-    let db := ((Conn.connect (DB.init rs ls eo)).run ops).gc.db
+    let db := ((Conn.connect (DB.init rs ls eo rc)).run ops).gc.db
     db.checkout.raw.working = db.checkout.committed ∧ db.checkout.raw.saves = [] ∧
     db.checkout.raw.autocommit = false ∧ db.checkout.raw.readUnc = false ∧
     db.checkout.raw.finalize = [] ∧
-    (((Conn.connect (DB.init rs ls eo)).run ops).step .connect).1.inTransaction = false := by
-  have h1 := gc_inv (run_inv ops _ (init_inv rs hrs ls eo))
+    (((Conn.connect (DB.init rs ls eo rc)).run ops).step .connect).1.inTransaction = false := by
+  have h1 := gc_inv (run_inv ops _ (init_inv rs hrs ls eo rc))
   obtain ⟨a, b, d, e, f⟩ := checkout_held_clean _ h1.2.1
   exact ⟨a, b, d, e, f, rfl⟩
 
-/-- a transparent reconnect after an invalidation also gets a clean connection -/
+/-- a transparent reconnect after an invalidation also gets a clean connection — whenever
+    it succeeds (the creator may fail: then nothing is handed out), and it does succeed when
+    no fault is armed -/
 theorem reconnect_clean (c : Conn) (hi : Inv c) (hinv : c.invalidated = true) (ht : c.transaction = none) :
-    c.revalidate.2 = .ok ∧
-    c.revalidate.1.db.raw.working = c.revalidate.1.db.committed ∧ c.revalidate.1.db.raw.saves = [] ∧
-    c.revalidate.1.db.raw.autocommit = false ∧ c.revalidate.1.db.raw.readUnc = false := by
+    (c.revalidate.2 = .ok →
+      c.revalidate.1.hasDbapi = true ∧
+      c.revalidate.1.db.raw.working = c.revalidate.1.db.committed ∧ c.revalidate.1.db.raw.saves = [] ∧
+      c.revalidate.1.db.raw.autocommit = false ∧ c.revalidate.1.db.raw.readUnc = false) ∧
+    (c.revalidate.2 ≠ .ok → c.revalidate.1.hasDbapi = false) ∧
+    (c.db.faults = [] → c.revalidate.2 = .ok) := by
   simp only [Conn.invalidated, Bool.and_eq_true, Bool.not_eq_true'] at hinv
   obtain ⟨a, b, d, e, _⟩ := checkout_held_clean _ hi.2.1
   simp only [Conn.revalidate, hinv.1, hinv.2, ht]
-  exact ⟨rfl, a, b, d, e⟩
+  refine ⟨?_, ?_, ?_⟩
+  · cases hx : c.db.checkoutF with
+    | mk db o =>
+      cases o with
+      | none =>
+        have := checkoutF_none hx
+        subst this
+        intro _
+        exact ⟨rfl, a, b, d, e⟩
+      | some k =>
+        intro h
+        exfalso
+        revert h
+        simp only [Bool.true_and, Bool.not_false, if_true, Option.isSome_none, Bool.false_eq_true, if_false]
+        cases k <;> simp <;> split <;> simp
+  · cases hx : c.db.checkoutF with
+    | mk db o =>
+      cases o with
+      | none => intro h; exact absurd rfl h
+      | some k => intro _; rfl
+  · intro hf
+    rw [checkoutF_nofault hf]
+    rfl
 
 /-! ## F7 (fixed by 387ee97): the pre-fix close() breaks the invariant -/
 
